@@ -223,7 +223,7 @@ D_SHARDS = [
     dict(macros=['emph'], envs=['equation', 'verbatim'], specials=['``'], argless=[]),
     dict(macros=['cite', 'mbox'], envs=['enumerate'], specials=["''"], argless=[]),
 ]
-ALL_FEATURES = ['group', 'math', 'display', 'comment', 'par', 'space', 'commenteof', 'argtoken', 'bracket']
+ALL_FEATURES = ['group', 'math', 'display', 'comment', 'emptycomment', 'par', 'space', 'commenteof', 'argtoken', 'bracket']
 
 
 def jobs(ctxname, shards, maxacts, features, emitfaulted, emitplain, timeout=3000):
@@ -282,7 +282,7 @@ DEEP = [
 def run_fault_injection(ctx):
     quick = ctx.tier == 'quick'
     n = 3 if quick else 4
-    feats = ['group', 'math', 'display', 'comment', 'space', 'argtoken', 'fault']
+    feats = ['group', 'math', 'display', 'comment', 'emptycomment', 'space', 'argtoken', 'fault']
     tot = 0
     for cname, shards in (('k', K_SHARDS), ('default', D_SHARDS)):
         m = common.run_shards(ctx, ('harness.docwriter', 'DocConsumer'),
